@@ -74,7 +74,7 @@ func RunC07(tier string) int {
 	run := report.New("C07", tier, "fault_enumeration",
 		"(1) crash points of the real binary: a counting run lists every hit of every hook point (fs backend Set steps, output handler steps, executor steps); for each sampled (thorough: every) K the pre-build snapshot is restored and the build is SIGKILLed at the K-th point; the cache is audited at rest (own hashing and protobuf decoding: every cas/<d> hashes to d, every target/<k> decodes with change_hash==k and references only present blobs incl. files inside trees) and a follow-up build must exit 0 with reference bytes; "+
 			"(2) in-process storage faults: a decorator fails the k-th backend call (any/Set/Get/Exists, whole or mid-stream) while outputs + target result are written, then a second target of the same build sharing digests with the first is written, then the same audit (a result visible at rest must reference only stored blobs); "+
-			"(3) concurrent Set/Get/Exists/Delete histories on the fs backend with unique self-describing values, checked with porcupine against a per-key register (a read sees nothing or one complete write); "+
+			"(2b) backends.RemoteWrapper over the real fs backend and a remote that fails before / in the middle of / after a write or truncates a read, for blobs from 10 B to 1.5 MB, then the at-rest audit of the local tier; (3) concurrent Set/Get/Exists/Delete histories on the fs backend with unique self-describing values, checked with porcupine against a per-key register (a read sees nothing or one complete write); "+
 			"non-trivial = run actually killed / fault actually hit / history with concurrent writers; distinct = shape + crash point + executed count")
 	st, err := e1.Prepare(run, false)
 	if err != nil {
@@ -123,6 +123,43 @@ func RunC07(tier string) int {
 		}
 		if r.ID < 2 {
 			run.Sample(r)
+		}
+	})
+	if err != nil {
+		run.Infra(err.Error())
+	}
+
+	// (2b) remote wrapper under remote faults
+	err = StoreSweep(run, "TestRemoteFaults", tierN(tier, 60, 600), false, func(o Outcome) {
+		run.Eval(1)
+		run.Count("remote_wrapper_fault_cases", 1)
+		if o.Crash != "" {
+			run.Violation("remote-wrapper "+o.Crash, "remote wrapper driver died: "+firstLines(o.Detail, 5), map[string]any{"case": o.Case, "detail": o.Detail})
+			return
+		}
+		var r struct {
+			ID       int    `json:"id"`
+			SetMode  string `json:"set_mode"`
+			GetMode  string `json:"get_mode"`
+			CacheDir string `json:"cache_dir"`
+			Errors   int    `json:"errors"`
+			Wrong    bool   `json:"wrong_content_read"`
+		}
+		if json.Unmarshal(o.Res, &r) != nil {
+			return
+		}
+		if r.Errors > 0 {
+			run.Nontrivial(fmt.Sprintf("remote|%s|%s", r.SetMode, r.GetMode))
+		}
+		if r.Wrong {
+			run.Violation("remote-wrapper wrong-content-read get="+r.GetMode, "a read through the remote wrapper returned content that does not match its digest without an error", map[string]any{"case": r})
+		}
+		store, _ := audit.LoadDir(r.CacheDir)
+		rep := audit.Audit(store)
+		run.Count("local_blobs_audited_after_remote_faults", rep.CasOK+len(rep.CasBad))
+		if len(rep.CasBad) > 0 {
+			run.Violation(fmt.Sprintf("remote-wrapper local-blob-content-mismatch set=%s get=%s", r.SetMode, r.GetMode),
+				fmt.Sprintf("after a remote fault (set %q, get %q) the local cache exposes %d blobs whose content does not hash to their name: %v", r.SetMode, r.GetMode, len(rep.CasBad), rep.CasBad), map[string]any{"case": r})
 		}
 	})
 	if err != nil {
